@@ -98,6 +98,7 @@ K_PTRACE = {
     "vk_ptrace_read_len11": H("B", "MemReader::ptrace", "11-byte destination (one word + 3-byte tail)"),
     "vk_ptrace_read_len17": H("B", "MemReader::ptrace", "17-byte destination (two words + 1-byte tail)"),
     "vk_read_to_vec_len_matches": H("B", "MemReader::read_to_vec", "11 bytes through the ptrace strategy"),
+    "vk_read_strategy_selection": H("C", "MemReader::read (the first strategy that works is remembered; Unavailable is sticky; every success/failure combination of the strategies)"),
 }
 K_SUSPEND = {
     "vk_suspend_thread_protocol": H("B", "PtraceDumper::suspend_thread", "at most 3 wait results (SIGSTOP / SIGUSR1 / SIGCHLD / exited / EINTR / error)"),
@@ -488,7 +489,8 @@ PLAN["C01"] = {
               {"unit": "dir_section", "functions": ["new", "dump_dir_entry", "write_to_file"], "tags": ["C01"], "tiers": Q},
               {"unit": "app_memory", "functions": ["app_memory_write"], "tags": ["C01"], "tiers": Q}, LOOKUPS("C01"),
               {"unit": "mem_writer", "functions": None, "tags": ["C16"], "tiers": Q}],
-    "kani": [{"tiers": Q, "jobs": 6, "timeout": 1500, "harnesses": dict(K_THREAD_NAMES, **dict(K_ARRAYS, **{"vk_app_memory_two_regions": H("B", "app_memory::write", "2 requests")}))},
+    "kani": [{"tiers": Q, "jobs": 6, "timeout": 1500, "harnesses": dict(K_THREAD_NAMES, **dict(K_ARRAYS, **{"vk_app_memory_two_regions": H("B", "app_memory::write", "2 requests"),
+                                                                                                              "vk_stream_types_distinct": H("C", "the 18 stream types generate_dump emits are pairwise distinct and non-zero")}))},
              {"tiers": T, "jobs": 3, "timeout": 5400, "mem_gb": 20, "harnesses": dict(K_GENERATE, **K_TLS)}],
     "trusted": ["mappings::write / fill_raw_module, handle_data_stream, memory_info_list_stream, systeminfo_stream, dso_debug bodies are not under contract (fs/procfs iterators): only the array/size arithmetic they share with the builder is",
                 "macOS writer not touched (L4)"],
